@@ -134,6 +134,28 @@ def run(run: common.Run):
             lines3.append(None)
     rep3 = common.model_batch([l for l in lines3 if l is not None])
     it3 = iter(rep3)
+    # the same definition as ONE function of the two images in the Lean model (Model/PartialMask.lean, `pmask` op) - the
+    # object the block-invariance theorems of Props/E2EPartial.lean are about; one batch for all reference-grid cases
+    pm_lines, wholes = {}, {}
+    for (case, src, ref, s, r, sv, rv, proc_ref, off) in prepared:
+        # (the model evaluates every kernel fit of every eroded window in exact rationals, without memoisation: ~3 s per
+        #  image, so only the smaller images and a bounded number per run go through it)
+        if proc_ref and src.h * src.w <= 500 and len(pm_lines) < (5 if run.quick() else 40):
+            st = [str(int(v)) if m else '_' for v, m in zip(s[0].ravel(), sv.ravel())]
+            rt = [str(int(v)) if m else '_' for v, m in zip(r[0].ravel(), rv.ravel())]
+            pm_lines[case['i']] = 'pmask %s %d %d nearest 1 0 %d %d %d %d %d %d %d %d %d %d %d %d S %s R %s' % (
+                case['model'], case['kernel'][0], case['kernel'][1], *src.row_axis, *src.col_axis, *ref.row_axis, *ref.col_axis,
+                ' '.join(st), ' '.join(rt))
+    if pm_lines:
+        keys = list(pm_lines)
+        rep = common.model_batch([pm_lines[k] for k in keys])
+        if rep is None:
+            run.model_available = False
+        else:
+            for k, line in zip(keys, rep):
+                sh = next(p_[1] for p_ in prepared if p_[0]['i'] == k)
+                wholes[k] = np.array([t == '1' for t in line.split()]).reshape(sh.h, sh.w)
+                run.lines_compared += 1
     run.lines_compared += len(lines) + len(lines2) + len(rep3)
     for (case, src, ref, s, r, sv, rv, proc_ref, off), keep, l3 in zip(prepared, keeps, lines3):
         if l3 is not None:
@@ -142,6 +164,8 @@ def run(run: common.Run):
         else:
             expect = keep
         pair = fusion.write_pair(tmp, 'c17', src, ref, s, r, sv, rv)
+        whole = wholes.get(case['i'])
+        pm_line = pm_lines.get(case['i'], '')
         masks = []
         for hv in case['halvings']:
             sub = dict(case, halvings=hv)
@@ -172,6 +196,10 @@ def run(run: common.Run):
                 run.fail(sub, 'mask_partial removed nothing: the corrected mask equals the source mask',
                          signature=dict(kind='not-strict', proc=res.proc_crs))
                 continue
+            if whole is not None and not np.array_equal(cm, whole) and not (hv and tie_geometry(src, ref)):
+                d = np.argwhere(cm != whole)
+                run.disagree(sub, pm_line[:160], f'valid={bool(whole[tuple(d[0])])} at {d[0].tolist()}', f'valid={bool(cm[tuple(d[0])])}',
+                             what=f'whole-image partial-mask model differs from the corrected mask at {len(d)} pixels')
             if not np.array_equal(cm, expect):
                 d = np.argwhere(cm != expect)
                 rr, cc = d[0]
